@@ -43,7 +43,7 @@ theorem Pkt_unpack_total (t : Pkt) (buf : Bytes) : (Pkt.unpack t buf).2 ≠ .err
 
 /-- every iteration of the MPEGTS loop consumes 188 bytes, reports only a bare `Exception`, and
     fails on an empty remainder -/
-theorem decBlock_progress : Progress decBlock where
+theorem mpegBlock_progress : Progress decBlock where
   pos := by
     intro b x n h
     simp only [decBlock] at h
@@ -59,7 +59,7 @@ theorem decBlock_progress : Progress decBlock where
 /-- `MPEGTS.unpack` terminates on every buffer -/
 theorem MPEGTS_unpack_total (t : TS) (buf : Bytes) : (TS.unpack t buf).2 ≠ .error .fuel := by
   simp only [TS.unpack]
-  have := decOff_fuel_sufficient decBlock moreBlocks buf decBlock_progress (buf.length + 1) 0 (by omega)
+  have := decOff_fuel_sufficient decBlock moreBlocks buf mpegBlock_progress (buf.length + 1) 0 (by omega)
   cases hd : decOff decBlock moreBlocks buf (buf.length + 1) 0 with
   | ok bs => simp
   | error e => simp; intro he; exact this (he ▸ hd)
@@ -74,7 +74,7 @@ theorem MPEGTS_items_le (t : TS) (buf : Bytes) (h : (TS.unpack t buf).2 = .ok tr
   | ok bs =>
     simp only
     intro _
-    have := decOff_items_le decBlock moreBlocks buf decBlock_progress _ 0 bs hd
+    have := decOff_items_le decBlock moreBlocks buf mpegBlock_progress _ 0 bs hd
     omega
 
 /-! ### PMT loops -/
